@@ -485,6 +485,6 @@ def _known_f20(facet, case, violation):
 KNOWN = {"F4-positional-only": _known_f4, "F20-parameter-named-_call": _known_f20}
 
 FACETS = [
-    Facet("random-calls", strategy, check, classify, quick=1500, thorough=30000),
-    Facet("valid-calls", valid_call_strategy, check, classify, quick=1500, thorough=30000),
+    Facet("random-calls", strategy, check, classify, quick=1500, thorough=150000),
+    Facet("valid-calls", valid_call_strategy, check, classify, quick=1500, thorough=150000),
 ]
